@@ -169,6 +169,8 @@ func (t *gtree) hasCoords() bool {
 	return false
 }
 
+var c18Shared *wkt.Encoder
+
 func genC18(r *Rng, e *Emitter, n int) {
 	for i := 0; i < n; i++ {
 		d := r.Intn(16)
@@ -187,7 +189,15 @@ func genC18(r *Rng, e *Emitter, n int) {
 			e.emit("C18.wkt", in, guard(func() string {
 				var s string
 				var err error
-				if persist {
+				if persist && len(in)%2 == 0 {
+					// one Encoder for the whole run whose limit the caller sets before each text (an option
+					// is a function on the Encoder: it can be applied to one that exists already)
+					if c18Shared == nil {
+						c18Shared = wkt.NewEncoder()
+					}
+					wkt.EncodeOptionWithMaxDecimalDigits(d)(c18Shared)
+					s, err = c18Shared.Encode(g)
+				} else if persist {
 					if c18Encoders[d] == nil {
 						c18Encoders[d] = wkt.NewEncoder(wkt.EncodeOptionWithMaxDecimalDigits(d))
 					}
